@@ -22,7 +22,10 @@ def run(tier):
     plans_exact = [dict(real=True, sets=",".join(EXACT_SETS), gens="star,hole,spiky,arbitrary", variants="base", n=n, seed=s, where="interior,origin,far,nl")]
     plans_f8 = [dict(real=True, sets=",".join(F8_SETS), gens="star,hole,spiky", variants="base", n=n // 2, seed=s + 1, where="interior,origin,far")]
     plans_deep = [dict(real=True, sets="WebMercatorQuad,NZTM2000Quad,UPSArcticWGS84Quad,WorldMercatorWGS84Quad", gens="star", variants="base", n=max(60, n // 20), seed=s + 2,
-                       where="interior", deep=True)]
+                       where="interior", deep=True),
+                  # a deep id (level > 32) together with shallower ones, where the deep id works: the shallow ids must still get their centres
+                  dict(real=True, sets="WebMercatorQuad,NZTM2000Quad,UPSArcticWGS84Quad,WorldMercatorWGS84Quad", gens="star", variants="base",
+                       n=max(80, n // 15), seed=s + 3, where="sw", deep=True)]
     d = vlib.scratch("c03")
     try:
         lx = snapcheck.generate(drv, d, plans_exact)
